@@ -124,7 +124,10 @@ def step(versions, shapes, P, combos, checks, only=None, hexshapes=False, ota_mo
             shape = w.pick(shapes, "shape")
             ota = w.pick(list(ota_modes), "ota")
             g = C.make_gateway(w, version, flavour, transport,
-                               cb_raises=C.sym_flag(w, "callback_raises"))
+                               cb_raises=C.sym_flag(w, "callback_raises"),
+                               persistence="callback" in checks)
+            if "callback" in checks:
+                g.gw.tasks.persistence.need_save = False  # as after a completed save
             ids = C.gen_network(w, g, shape)
             C.gen_ota(w, g, ids, ota)
             g.gw.metric = C.sym_flag(w, "metric")
@@ -186,6 +189,11 @@ def step(versions, shapes, P, combos, checks, only=None, hexshapes=False, ota_mo
                     w.check(n == 0, f"event callback fired for a message without effect[{tag}]")
                 else:
                     w.check(n <= 1, f"event callback fired {n}x[{tag}]")
+                if rule == R.ONE:
+                    # whatever the callback does (it may raise), everything else the message
+                    # causes still happens - including the mark that the state needs saving
+                    w.check(g.gw.tasks.persistence.need_save is True,
+                            f"a state-changing message did not mark the state unsaved[{tag}]")
                 post_snap = reported(g.gw)
                 for fields, snap in calls:
                     w.check(w.eq(fields, msg), f"event callback got other fields[{tag}]")
